@@ -330,6 +330,11 @@ func (w *World) apply(op *Op, orc Oracle) {
 		}
 		return
 	}
+	if op.K == "put-ent" && op.Spec != nil && op.Spec.Validity != nil && op.Spec.Validity.Until != "" && op.Spec.Validity.Duration != "" {
+		// gopki rejects such a file and skips it; the model would still count the entity. No generator
+		// means to write one, so this is trouble in the harness, never a violation.
+		w.Harness = "generator wrote a validity with both until and duration for " + op.Spec.ID
+	}
 	w.applyActor(op)
 	for _, h := range actorHooks {
 		h(w, op)
